@@ -183,6 +183,18 @@ func checkPack(h *hz.H, md protoreflect.MessageDescriptor, d protoreflect.Messag
 	}
 }
 
+func firstDiff(a, b []byte) int {
+	for i := 0; i < len(a) && i < len(b); i++ {
+		if a[i] != b[i] {
+			return i
+		}
+	}
+	if len(a) < len(b) {
+		return len(a)
+	}
+	return len(b)
+}
+
 func clipB(b []byte) []byte {
 	if len(b) > 24 {
 		return b[:24]
@@ -284,6 +296,83 @@ func runC16(h *hz.H) {
 			}
 		}
 	}
+	// (1c) large messages holding maps with many entries, packed under each option: with Deterministic the Value is THE
+	// deterministic encoding (compared byte for byte with the reference encoder's, 4 packs each), otherwise an encoding
+	bigMaps := 0
+	for _, md := range types {
+		var sfd protoreflect.FieldDescriptor
+		for i := 0; i < md.Fields().Len(); i++ {
+			if f := md.Fields().Get(i); f.Kind() == protoreflect.StringKind && !f.IsList() && !f.IsMap() && f.ContainingOneof() == nil {
+				sfd = f
+				break
+			}
+		}
+		for i := 0; i < md.Fields().Len(); i++ {
+			mfd := md.Fields().Get(i)
+			if !mfd.IsMap() || bigMaps >= 40 {
+				continue
+			}
+			d := enum.NewDyn(md)
+			mp := d.Mutable(mfd).Map()
+			for e := 0; e < 80; e++ {
+				var k protoreflect.Value
+				switch mfd.MapKey().Kind() {
+				case protoreflect.BoolKind:
+					k = protoreflect.ValueOfBool(e%2 == 1)
+				case protoreflect.StringKind:
+					k = protoreflect.ValueOfString(fmt.Sprintf("k%03d", (e*37)%80))
+				case protoreflect.Int32Kind, protoreflect.Sint32Kind, protoreflect.Sfixed32Kind:
+					k = protoreflect.ValueOfInt32(int32((e*37)%80 - 40))
+				case protoreflect.Int64Kind, protoreflect.Sint64Kind, protoreflect.Sfixed64Kind:
+					k = protoreflect.ValueOfInt64(int64((e*37)%80 - 40))
+				case protoreflect.Uint32Kind, protoreflect.Fixed32Kind:
+					k = protoreflect.ValueOfUint32(uint32((e * 37) % 80))
+				default:
+					k = protoreflect.ValueOfUint64(uint64((e * 37) % 80))
+				}
+				v := mp.NewValue()
+				if mfd.MapValue().Kind() == protoreflect.StringKind {
+					v = protoreflect.ValueOfString(fmt.Sprintf("v%d", e))
+				}
+				mp.Set(k.MapKey(), v)
+			}
+			if sfd != nil {
+				d.Set(sfd, protoreflect.ValueOfString(strings.Repeat("s", 300)))
+			}
+			ref, _ := proto.MarshalOptions{Deterministic: true}.Marshal(d.Interface())
+			if len(ref) < 256 || mp.Len() < 2 {
+				continue
+			}
+			bigMaps++
+			what := fmt.Sprintf("%s{%s: %d entries, %d bytes in all}", md.FullName(), mfd.Name(), mp.Len(), len(ref))
+			for _, src := range []proto.Message{enum.BuildGo(d), d.Interface()} {
+				for rep := 0; rep < 4; rep++ {
+					for _, on := range []string{"Deterministic", "default"} {
+						dst := &anypb.Any{}
+						var err error
+						p := hz.Catch(func() {
+							err = anyutil.MarshalFrom(dst, src, proto.MarshalOptions{Deterministic: on == "Deterministic"})
+						})
+						h.Eval(true, hz.Hash("C16big", what, on, fmt.Sprintf("%T", src)))
+						c := c16case{Kind: "pack-big-map", Type: string(md.FullName()), Src: string(mfd.Name()), Opts: on}
+						if p != nil || err != nil {
+							h.Violate("C16/pack/failed/big-map/"+on, fmt.Sprintf("MarshalFrom(%s, %s) failed: panic=%v err=%v", what, on, p, err), c)
+							continue
+						}
+						if on == "Deterministic" && !bytes.Equal(dst.Value, ref) {
+							h.Violate("C16/pack/value/big-map/Deterministic", fmt.Sprintf("MarshalFrom(%s %T, Deterministic): Value is not the deterministic encoding (first difference at byte %d of %d)", what, src, firstDiff(dst.Value, ref), len(ref)), c)
+							continue
+						}
+						chk := enum.NewDyn(md)
+						if e := proto.Unmarshal(dst.Value, chk); e != nil || enum.Canon(chk, false) != enum.Canon(d, false) {
+							h.Violate("C16/pack/value/big-map/"+on, fmt.Sprintf("MarshalFrom(%s, %s): Value is not an encoding of the message (err %v)", what, on, e), c)
+						}
+					}
+				}
+			}
+		}
+	}
+	h.Rep.Bounds["big_map_messages"] = bigMaps
 	// (2) every Any x resolver combination returns a message or an error, never panics
 	valid, _ := proto.Marshal(&anypb.Any{TypeUrl: "/x", Value: []byte{1}})
 	bEnc := []byte{0x0a, 0x01, 0x78} // testpb.B{x:"x"} and many others: field 1 bytes "x"
@@ -340,7 +429,9 @@ func runC16(h *hz.H) {
 			var err error
 			c := c16case{Kind: "failed-pack", Src: sn, Opts: on}
 			h.Eval(true, hz.Hash("C16f", sn, on))
-			if p := hz.Catch(func() { err = anyutil.MarshalFrom(dst, src, proto.MarshalOptions{Deterministic: on == "Deterministic"}) }); p != nil {
+			if p := hz.Catch(func() {
+				err = anyutil.MarshalFrom(dst, src, proto.MarshalOptions{Deterministic: on == "Deterministic"})
+			}); p != nil {
 				h.Violate("C16/failed-pack/panic/"+sn, fmt.Sprintf("MarshalFrom(dst, %s) panicked: %v", sn, p), c)
 				continue
 			}
@@ -437,7 +528,9 @@ func runC16(h *hz.H) {
 			c := c16case{Kind: "self-pack", Opts: on, Src: fmt.Sprintf("dst itself, spare capacity %d", spare)}
 			h.Eval(true, hz.Hash("C16s", on, fmt.Sprint(spare)))
 			var err error
-			if p := hz.Catch(func() { err = anyutil.MarshalFrom(dst, dst, proto.MarshalOptions{Deterministic: on == "Deterministic"}) }); p != nil || err != nil {
+			if p := hz.Catch(func() {
+				err = anyutil.MarshalFrom(dst, dst, proto.MarshalOptions{Deterministic: on == "Deterministic"})
+			}); p != nil || err != nil {
 				h.Violate("C16/self-pack/failed", fmt.Sprintf("MarshalFrom(dst, dst) failed: panic=%v err=%v", p, err), c)
 				continue
 			}
@@ -453,7 +546,9 @@ func runC16(h *hz.H) {
 			lst := &anypb.Any{TypeUrl: "/wrap", Value: nil}
 			wantInner, _ := proto.MarshalOptions{Deterministic: true}.Marshal(proto.Clone(inner))
 			_ = lst
-			if p := hz.Catch(func() { err = anyutil.MarshalFrom(inner, proto.Clone(inner), proto.MarshalOptions{Deterministic: true}) }); p != nil || err != nil || !bytes.Equal(inner.Value, wantInner) {
+			if p := hz.Catch(func() {
+				err = anyutil.MarshalFrom(inner, proto.Clone(inner), proto.MarshalOptions{Deterministic: true})
+			}); p != nil || err != nil || !bytes.Equal(inner.Value, wantInner) {
 				h.Violate("C16/repack/value", fmt.Sprintf("MarshalFrom into a destination holding a value (spare %d): panic=%v err=%v value=%x want %x", spare, p, err, inner.Value, wantInner), c)
 			}
 		}
